@@ -24,8 +24,11 @@ ASSUMPTIONS_A = [
     "validated per run by replaying solver witnesses in the real runner (trace, result, steps)",
     "honest-mode hint relations as in engines/symex/hints.py (validated by the same replays)",
     "z3 verdicts (sample re-decided by z3 4.8.12 and cvc5 in the thorough tier)",
-    "bounds: <=512 paths and <=20000 steps per function, calls inlined to depth 8, concrete "
-    "loop trip counts, input arrays of length <=2, dictionaries/syscalls/circuits outside",
+    "bounds: <=512 paths and <=400000 steps per function; calls inlined to depth 5 (quick) / 10 "
+    "(thorough), deeper paths are cut and counted (cut_paths); loops only with concrete trip "
+    "counts; input arrays of length <=2 (quick) / <=3 (thorough); symbolic array offsets are "
+    "enumerated by the solver (<=64 values); dictionaries, syscalls, circuits, blake, qm31, secp "
+    "and hand-written Sierra are outside",
 ]
 
 
